@@ -65,10 +65,9 @@ func (h *ValueReader) HandleArrayValue(data []byte) (p int, err error) {
 		}
 		h2.newMapSize = h.maxMapSize
 		val, pp, err = h2.ReadObject(data)
-		mpLen := len(val.(map[string]interface{}))
-		if mpLen > h.maxMapSize {
-			h.maxMapSize = mpLen
-		}
+		// size hint for the next sibling: the size of this one (not a running maximum, which
+		// made every later object as expensive as the largest one seen so far)
+		h.maxMapSize = len(val.(map[string]interface{}))
 		h.returnValueReader(h2)
 	case ArrayStartType:
 		h2 := h.borrowValueReader()
@@ -116,10 +115,9 @@ func (h *ValueReader) HandleObjectValue(fieldname, data []byte) (p int, err erro
 		}
 		h2.newMapSize = h.maxMapSize
 		val, pp, err = h2.ReadObject(data)
-		mpLen := len(val.(map[string]interface{}))
-		if mpLen > h.maxMapSize {
-			h.maxMapSize = mpLen
-		}
+		// size hint for the next sibling: the size of this one (not a running maximum, which
+		// made every later object as expensive as the largest one seen so far)
+		h.maxMapSize = len(val.(map[string]interface{}))
 		h.returnValueReader(h2)
 	case ArrayStartType:
 		h2 := h.borrowValueReader()
